@@ -264,12 +264,19 @@ pub fn build(cfg: &NetCfg, params: Option<&[P]>) -> Result<Network, String> {
         for l in cfg.layers.iter() {
             add_layer(&mut net, l);
         }
-        net.set_accumulation(lib_acc(cfg.skipacc), lib_acc(cfg.loopacc));
+        // the accumulation may be configured before or after the connections are made
+        let late = (cfg.layers.len() + cfg.skips.len() + cfg.loops.len()) % 2 == 1;
+        if !late {
+            net.set_accumulation(lib_acc(cfg.skipacc), lib_acc(cfg.loopacc));
+        }
         for (from, to) in cfg.skips.iter() {
             net.connect(*from, *to);
         }
         for (outof, into, iters, inskips) in cfg.loops.iter() {
             net.loopback(*outof, *into, *iters, std::sync::Arc::new(|x| 1.0 / x), *inskips);
+        }
+        if late {
+            net.set_accumulation(lib_acc(cfg.skipacc), lib_acc(cfg.loopacc));
         }
         if let Some(p) = params {
             set_params(&mut net, p);
